@@ -207,27 +207,31 @@ def handle : List String → Option String
   | "codec.dec" :: r => do
     let (d, r) ← pEnv r
     match r with
-    | [h] => do let b ← unhex? h; pure (outDec (fromBytes d b))
+    | [h] => do
+      let b ← unhex? h
+      pure (match construct d with | .error e => s!"err {e.name}" | .ok _ => outDec (fromBytes d b))
     | _ => none
   | "codec.enc" :: r => do
     let (d, r) ← pEnv r
     let (v, r) ← pVal r
     if r ≠ [] then none
     let v ← asDict v
-    pure (outEnc (toBytes d v))
+    pure (match construct d with | .error e => s!"err {e.name}" | .ok _ => outEnc (toBytes d v))
   | "codec.fdec" :: r => do
     let (f, r) ← pField r
     let (v, r) ← pVal r
     let v ← asDict v
     match r with
-    | [h] => do let b ← unhex? h; pure (outDec (fieldFrom f v b))
+    | [h] => do
+      let b ← unhex? h
+      pure (if constructField f then outDec (fieldFrom f v b) else "err ProtocolError")
     | _ => none
   | "codec.fenc" :: r => do
     let (f, r) ← pField r
     let (v, r) ← pVal r
     if r ≠ [] then none
     let v ← asDict v
-    pure (outEnc (fieldTo f v))
+    pure (if constructField f then outEnc (fieldTo f v) else "err ProtocolError")
   | ["codec.pdu.dec", name, h] => do
     let d ← pduByName name
     let b ← unhex? h
